@@ -18,6 +18,16 @@ CHECKS = {
         note=TB + " Modelled, not verified: isa_encode/isa_decode are represented by NanoVerif.Model.Isa; number formatting of the text form is outside the proof.",
         technique="Lean 4 proof (induction over operand lists, decide over generated table) + translator + differential correspondence",
         design="6/C11"),
+    "C12": dict(
+        text=("Lean 4 theorems, unbounded: the table-driven CRC-32 of nvm_crc32 (polynomial/init/final xor regenerated from the source) changes under "
+              "every error burst of span <= 32 bits at any bit position of any message (crc_burst); any file the loader accepts is refused after "
+              "such a burst anywhere after the header (load_rejects_burst), after any non-empty appended tail incl. CRC-preserving ones "
+              "(load_rejects_extension), at every truncation length (load_rejects_truncation), and with a bad magic/version/section count. "
+              "The hand-written loader model is tied to nvm_deserialize by correspondence on damaged compiler-produced files; the implementation "
+              "oracle runs every single-bit flip of every body bit and every truncation length in C, and nano_vm end to end."),
+        note=TB + " Modelled, not verified: nvm_deserialize/nvm_crc32 are represented by NanoVerif.Model.{Crc,Nvm}; 'frees and returns NULL' (no partial module) is observed under ASan in the thorough tier, not proved.",
+        technique="Lean 4 proof (bit-level CRC linearity/injectivity, induction over section parsers) + translator + differential correspondence",
+        design="6/C12"),
 }
 
 NOT_APPLICABLE = {
